@@ -233,6 +233,7 @@ def run(ctx):
     import c13
     c13.parse_errors_are_errors(ctx, "R05-h")
     parsed_text_accepted_only_without_errors(ctx, "R05-k")
+    module_tree_is_always_resolved(ctx, "R05-l")
     c13.registered_modules_come_from_their_file(ctx, "R05-i")
     c13.resolution_errors_not_overwritten(ctx, "R05-j")
 
@@ -384,3 +385,51 @@ def parsed_text_accepted_only_without_errors(ctx, rid):
                 r.violation(rid, "Parser::%s returns a tree on a path that never consulted the session's error state" % nm,
                             "decisions on the path: %s" % [k[-40:] for k, v in path.decisions], ["%s:%d" % (f.file, f.line)])
     r.floor(rid, n, 4, "Ok-returning paths of the parse entry points")
+
+
+def module_tree_is_always_resolved(ctx, rid):
+    """R05-l: whether the out-of-line modules are looked up depends on stdin / skip_children and on nothing else"""
+    from absint import explore, vkey, TooManyPaths
+    p, r = ctx.p, ctx.r
+    r.rule(rid, "formatting::format_project: the `recursive` argument of ModResolver::new is `false` for standard input and "
+                "`!config.skip_children()` otherwise — on every path, whatever else was decided before.  Resolving the module tree "
+                "is the only step that notices a child module that is missing, ambiguous or does not parse; a run that skips it for "
+                "some other reason (a line selection confined to the root file, a cache, an option) rewrites the root and exits 0 "
+                "where the full run reports the error and writes nothing")
+    f = p.fn("rustfmt_nightly::formatting::format_project")
+    if f is None:
+        r.undecidable(rid, "formatting::format_project not found")
+        return
+    try:
+        paths = explore(f, is_effect=lambda c: "ModResolver" in c.name and c.name.endswith("::new"), pure=lambda c: True, max_paths=50000)
+    except TooManyPaths as e:
+        r.undecidable(rid, str(e))
+        return
+    groups = {}
+    n = 0
+    for pa in paths:
+        for e in pa.effects:
+            if e.kind != "call" or len(e.args) < 3:
+                continue
+            n += 1
+            stdin = [v for k, v in pa.decisions[:e.ndec] if "Stdin" in k and isinstance(v, bool)]
+            groups.setdefault(stdin[-1] if stdin else None, set()).add(vkey(e.args[2]))
+    bad = []
+    for sd, vals in groups.items():
+        for v in vals:
+            core = v.replace("!", "").strip()
+            if sd is True and v != "false":
+                bad.append((sd, v))
+            elif sd is not True and not (core.endswith("Config::skip_children(arg2)") or core.endswith("skip_children(arg2)")) :
+                bad.append((sd, v))
+            elif sd is not True and not v.startswith("!"):
+                bad.append((sd, v))
+        if len(vals) > 1:
+            bad.append((sd, sorted(vals)))
+    r.instance(rid, "format_project: recursive = !stdin ∧ !skip_children", "violation" if bad else "ok", "%s:%d" % (f.file, f.line),
+               str({str(k): sorted(v) for k, v in groups.items()})[:160])
+    if bad:
+        r.violation(rid, "format_project resolves the module tree only under a further condition",
+                    "the `recursive` flag handed to ModResolver::new takes the values %s (stdin = %s): it depends on more than "
+                    "standard input and skip_children" % (bad[0][1], bad[0][0]), ["%s:%d" % (f.file, f.line)])
+    r.floor(rid, n, 2, "paths of format_project that build the module resolver")
